@@ -38,7 +38,7 @@ def alphabet(tier):
     names = ['addiL', 'liLab', 'liPos', 'liOff', 'luiHi', 'addiLo', 'dwL', 'dwOff', 'packPos', 'packOff', 'liPosShl', 'dwPosAnd']
     if tier == 'thorough':
         names += ['lwL', 'addiOff']
-    syms = (progs.pick(progs.LABELARITH, *names) + progs.pick(progs.CODE_C, 'addi8') + progs.pick(progs.VAR, 'li1') +
+    syms = (progs.pick(progs.LABELARITH, *names) + progs.pick(progs.NEGARITH, 'liNeg', 'liLow') + progs.pick(progs.CODE_C, 'addi8') + progs.pick(progs.VAR, 'li1') +
             progs.pick(progs.XFER, 'call') + progs.pick(progs.ALIGN, 'al4') + progs.pick(progs.DATA, 'dh') + [progs.DEF])
     return progs.instantiate(syms, ['A'])
 
